@@ -176,6 +176,10 @@ def define_dense():
              ("blank.c", " "), ("blank.h", "\t\n")]
     # lexical diagnostics with several highlights (the report must print the same one in every format)
     lexd = header42.header_text("lexd.c") + "\n" + "int\tmain(void)\n{\n\tint\t\tn;\n\n\tn = 0789 + 0b123 + 0x1g2h;\n\tn = 'a\n\treturn (n);\n}\n"
+    # a byte-order mark / a non-ASCII character first: content must be analysed as given in both input modes
+    edges.append(("bom.c", "\ufeff" + header42.header_text("bom.c") + "\n" + func))
+    edges.append(("bom.h", "\ufeff" + h2.replace("defs.h", "bom.h ") + body2.replace("DEFS_H", "BOM_H")))
+    edges.append(("nbsp.c", "\u00a0" + func))
     edges.append(("lexd.c", lexd))
     edges.append(("lexd.c", lexd + "char\t*g_s = \"never closed\n"))
     return edges + [("empty.c", ""), ("empty.h", ""), ("nl.c", "\n"), ("defs.c", h + body), ("defs.h", h2 + body2), ("file.c", header42.header_text("file.c") + "\n" + body),
